@@ -57,6 +57,14 @@ structure St where
   call — every stream poll returns `Pending` and wakes itself at once (tokio's coop budget when
   `recv` is awaited directly in `block_on` of a multi-thread runtime) -/
   exhausted : Bool := false
+  /-- the waker (task context) the application will poll with next -/
+  curW : Nat := 0
+  /-- the waker of the `poll_next` call in progress / last made -/
+  polledW : Nat := 0
+  /-- the waker currently published in the queue (`inner.waker`), meaningful while `waker` -/
+  pubW : Nat := 0
+  /-- every receiver wake-up so far: WHICH waker was woken, oldest first (ghost) -/
+  woken : List Nat := []
 
 def upd {α} (f : Nat → α) (k : Nat) (v : α) : Nat → α := fun j => if j = k then v else f j
 @[simp] theorem upd_same {α} (f : Nat → α) k v : upd f k v k = v := by simp [upd]
@@ -78,6 +86,7 @@ inductive Op
   | pollStart            -- application (re)polls: idle → a, or parked∧notified → a
   | recvStep             -- receiver executes its next section
   | exhaust              -- the cooperative budget runs out (until the current/next call returns)
+  | setWaker (w : Nat)   -- the application moves to another task / future: later polls use waker `w`
 deriving Repr, DecidableEq
 
 /-- a stream waker with ticket t for key k fires: lock; push; take+wake receiver waker -/
@@ -85,12 +94,14 @@ def fire (s : St) (t k : Nat) : St :=
   { s with heap := (t, k) :: s.heap,
            waker := false,
            notified := s.notified || s.waker,
-           wakes := if s.waker then s.wakes + 1 else s.wakes }
+           wakes := if s.waker then s.wakes + 1 else s.wakes,
+           woken := if s.waker then s.woken ++ [s.pubW] else s.woken }
 
 def doInsert (s : St) (k : Nat) : St :=
   if s.reg k = .absent then
     { s with reg := upd s.reg k .inMap, heap := (s.counter, k) :: s.heap, counter := s.counter + 1,
-             notified := s.notified || s.waker, wakes := if s.waker then s.wakes + 1 else s.wakes }
+             notified := s.notified || s.waker, wakes := if s.waker then s.wakes + 1 else s.wakes,
+             woken := if s.waker then s.woken ++ [s.pubW] else s.woken }
   else s
 
 def doRemove (s : St) (k : Nat) : St :=
@@ -115,22 +126,24 @@ def doClose (s : St) (k : Nat) : St :=
 
 def doPollStart (s : St) : St :=
   match s.pc with
-  | .idle => { s with pc := .a, notified := false, seen := [] }
-  | .parked => { s with pc := .a, notified := false, seen := [] }     -- spurious polls are legal
+  | .idle => { s with pc := .a, notified := false, seen := [], polledW := s.curW }
+  | .parked => { s with pc := .a, notified := false, seen := [], polledW := s.curW }     -- spurious polls are legal
   | _ => s
 
 /-- lock section A proper: publish the waker, pop the minimum-ticket event, check the stream out -/
 def doAcore (s : St) : St :=
   match popMin s.heap with
-  | none => { s with waker := true, pc := .parked, exhausted := false }
+  | none => { s with waker := true, pubW := s.polledW, pc := .parked, exhausted := false }
   | some ((t, k), rest) =>
-    if s.reg k = .inMap then { s with waker := true, heap := rest, reg := upd s.reg k .out, pc := .b t k }
-    else { s with waker := true, heap := rest }
+    if s.reg k = .inMap then
+      { s with waker := true, pubW := s.polledW, heap := rest, reg := upd s.reg k .out, pc := .b t k }
+    else { s with waker := true, pubW := s.polledW, heap := rest }
 
 /-- give the executor a chance to run: keep every event, wake the receiver's own waker, return
 `Pending` -/
 def yieldNow (s : St) : St :=
-  { s with waker := true, pc := .parked, notified := true, wakes := s.wakes + 1, exhausted := false }
+  { s with waker := true, pubW := s.polledW, pc := .parked, notified := true, wakes := s.wakes + 1,
+           woken := s.woken ++ [s.polledW], exhausted := false }
 
 /-- lock section A: if the next event belongs to a stream that ALREADY returned `Pending` during
 this very `poll_next` call (it woke itself — e.g. the executor's cooperative budget is exhausted —
@@ -175,6 +188,7 @@ def step (s : St) : Op → St
   | .pollStart => doPollStart s
   | .recvStep => doRecv s
   | .exhaust => { s with exhausted := true }
+  | .setWaker w => { s with curW := w }
 
 /-- number of heap events for key k -/
 def cnt (h : List (Nat × Nat)) (k : Nat) : Nat := (h.filter (fun e => e.2 = k)).length
